@@ -176,6 +176,10 @@ func vErrName(err error) string {
 	case ircserver.ErrNoSuchSession:
 		return "err=nosuchsession"
 	}
+	if strings.HasPrefix(err.Error(), "Revision mismatch") {
+		// a Config message that does not carry the revision in force + 1 is skipped (fix b3bad2c)
+		return "cfgrev"
+	}
 	return "err=other"
 }
 
